@@ -1,6 +1,6 @@
 META = dict(
     level='exploration',
-    rule=('cases = (form, pointee type, base, n type, n value, operand wrapper, pointer wrapper); forms p+n p-n p+=n p-=n ++p p++ --p p-- p[n] &p[n]; '
+    rule=('cases = (form, pointee type, base, n type, n value, operand wrapper, pointer wrapper); forms p+n p-n p+=n p-=n ++p p++ --p p-- p[n] &p[n], and n+p (which the library defines as p+n); '
           'pointees char short int long longlong double int* long* int[4] long[3] struct; bases = every element-aligned address of a 64 KiB mbox region '
           '(lp32 ABI, 16-bit pointers) plus unaligned ends and null; n over 10 integer types with values {-4..4, n that put the exact target 0,+-1,+-2 '
           'elements around region start/end, type extrema, floor/ceil(2^k/s)+-1 for k=16,31,32,63,64}; plain operands on every base, tainted / '
